@@ -1,4 +1,5 @@
 import UF.Driver.Decode
+import UF.Model.Result
 import UF.Model.Engine
 import UF.Spec.Engine
 import UF.Spec.DnsEngine
@@ -70,7 +71,9 @@ def opC02 (args : List W) : String :=
       let ext := mkExt psl addrs pats
       let d := DnsEngine.build djb2 Facts.shortcutLength L
       let model := d.matchRequest djb2 Facts.shortcutLength (retrieveFrom L) ext basic q
-      let spec := specDns ext basic (L.map (·.1)) q
+      -- the reference resolution uses the MODEL of GetDNSBasicRule (group C; `c02_basic` shows it meets the
+      -- contract `c02` needs), not the implementation's own choice: a wrong nil / non-nil decision shows up here
+      let spec := specDns ext getDNSBasicRule (L.map (·.1)) q
       let flag (r : DnsResult) := if goBasic.isSome && r.networkRule.isNone && !q.hostname.isEmpty then "basic-not-a-candidate:" else ""
       flag model ++ outDns model ++ " " ++ flag spec ++ outDns spec
     | _, _, _, _, _ => "bad-decode"
